@@ -458,6 +458,15 @@ class Exec:
             else:
                 raise Unsupported(f"indirect call through {fv!r}")
         canon = self.canonical(callee)
+        # `<T as Trait>::method` inside a generic crate function: bind the type parameter from the turbofish of the enclosing call
+        mt = re.match(r"^<([A-Z]) as ", canon)
+        if mt and getattr(self, "callsite_stack", None):
+            site = self.callsite_stack[-1]
+            groups = re.findall(r"::<([^<>]*(?:<[^<>]*>[^<>]*)*)>", site)
+            if groups and "," not in groups[-1]:
+                bound = groups[-1].strip()
+                callee = re.sub(r"^<" + mt.group(1) + r" as ", "<" + bound + " as ", callee.strip(), count=1)
+                canon = self.canonical(callee)
         for rx, fn in self.models:
             if rx.search(canon):
                 self.models_used.add(rx.pattern)
